@@ -14,6 +14,7 @@ import (
 	"github.com/feichai0017/NoKV/lsm/compact"
 	"github.com/feichai0017/NoKV/pb"
 	"github.com/feichai0017/NoKV/percolator"
+	"github.com/feichai0017/NoKV/percolator/latch"
 	rkv "github.com/feichai0017/NoKV/raftstore/kv"
 	"github.com/feichai0017/NoKV/utils"
 	"nokvverif/internal/pbt"
@@ -162,7 +163,36 @@ func (d *Driver) Do(s Step) (Resp, error) {
 	if len(resp.GetResponses()) != 1 {
 		return Resp{}, fmt.Errorf("kv.Apply returned %d responses for one request", len(resp.GetResponses()))
 	}
-	r := resp.GetResponses()[0]
+	return d.normalize(s, resp.GetResponses()[0]), nil
+}
+
+// Direct executes a transactional request through the percolator package
+// functions (what kv.Apply calls) with an explicit latch manager.
+func (d *Driver) Direct(s Step, m *latch.Manager) Resp {
+	req := d.request(s)
+	var r *pb.Response
+	switch s.Op {
+	case OpPrewrite:
+		r = &pb.Response{Cmd: &pb.Response_Prewrite{Prewrite: &pb.PrewriteResponse{Errors: percolator.Prewrite(d.DB, m, req.GetPrewrite())}}}
+	case OpCommit:
+		r = &pb.Response{Cmd: &pb.Response_Commit{Commit: &pb.CommitResponse{Error: percolator.Commit(d.DB, m, req.GetCommit())}}}
+	case OpRollback:
+		r = &pb.Response{Cmd: &pb.Response_BatchRollback{BatchRollback: &pb.BatchRollbackResponse{Error: percolator.BatchRollback(d.DB, m, req.GetBatchRollback())}}}
+	case OpResolve:
+		n, err := percolator.ResolveLock(d.DB, m, req.GetResolveLock())
+		r = &pb.Response{Cmd: &pb.Response_ResolveLock{ResolveLock: &pb.ResolveLockResponse{ResolvedLocks: n, Error: err}}}
+	case OpCheck:
+		r = &pb.Response{Cmd: &pb.Response_CheckTxnStatus{CheckTxnStatus: percolator.CheckTxnStatus(d.DB, m, req.GetCheckTxnStatus())}}
+	default:
+		panic("perco: Direct on " + s.Op)
+	}
+	return d.normalize(s, r)
+}
+
+// KeyBytes returns the user keys of the given indexes.
+func (d *Driver) KeyBytes(ix []int) [][]byte { return d.keyList(ix) }
+
+func (d *Driver) normalize(s Step, r *pb.Response) Resp {
 	var out Resp
 	switch s.Op {
 	case OpPrewrite:
@@ -194,7 +224,7 @@ func (d *Driver) Do(s Step) (Resp, error) {
 			out.KVs = append(out.KVs, KVOut{K: d.keyIndex(kv.GetKey()), V: string(kv.GetValue())})
 		}
 	}
-	return out, nil
+	return out
 }
 
 // Maint executes a maintenance step; the returned string classifies what happened.
